@@ -874,20 +874,25 @@ def reduce_npts(case, ctx):
     # The pivots a max-diagonal pivoted Cholesky factorisation of the *selected* Gram matrix accepts (each > tol).  Judged
     # independently of the order in which the points are returned: at every step of the factorisation over all inputs the
     # pivot is the largest residual diagonal, and it is always a selected point, so the greedy order restricted to the
-    # selected set reproduces the accepted pivots whether the implementation returns pivot order or training order.
-    A = Gs.copy()
-    piv = []
-    left = list(range(nsel))
-    while left:
-        j = max(left, key=lambda q: A[q, q])
-        p = A[j, j]
-        piv.append(p)
-        left.remove(j)
-        if p <= 0:
-            break
-        if left:
+    # selected set reproduces the accepted pivots whether the implementation returns pivot order or training order.  The
+    # normalised diagonal is 1 everywhere, so the *first* pivot is a tie the factorisation breaks by its internal
+    # ordering: every selected point is tried as the start, and the best sequence is judged.
+    def greedy(start):
+        A = Gs.copy()
+        out = []
+        left = list(range(nsel))
+        j = start
+        while True:
+            p = A[j, j]
+            out.append(p)
+            left.remove(j)
+            if p <= 0 or not left:
+                break
             A[np.ix_(left, left)] -= np.outer(A[left, j], A[j, left]) / p
-    piv = np.array(piv)
+            j = max(left, key=lambda q: A[q, q])
+        return np.array(out)
+
+    piv = max((greedy(s0) for s0 in range(nsel)), key=lambda v: float(v.min()))
     ctx.measure("min_pivot_over_tol_inverse", tol / max(float(piv.min()), 1e-300))
     ctx.check(np.all(piv > tol * (1 - 1e-6) - 1e-12), ("rank_deficient_selection", mode), pivots=piv.tolist(), tol=tol)
     truncated = case["nmax"] is not None and nsel == case["nmax"]
